@@ -197,6 +197,7 @@ def r03_1(ctx) -> None:
             raw = [a for a in fv if a[0] in ("user", "result", "item") or
                    (a[0] == "usermeth" and a[2] not in PROTOCOL_METHODS)]
             raw = [a for a in raw if not _container_param(ctx, a)]
+            raw = [a for a in raw if not (a[0] == "usermeth" and ctx.vals.is_plain(("user", a[1])))]
             if raw:
                 outer = u
                 while outer.parent is not None:
@@ -305,6 +306,13 @@ def r03_2(ctx) -> None:
         # ``Iterable[Any]`` element annotations of an outer iterable (starmap) are not parameters
         from .ownership import closes_all_param
         iter_params = {p for p in iter_params if not closes_all_param(ctx, u, p)}
+        if iter_params and _is_internal(u):
+            # a private helper that is only ever handed a library-built container (the tuple of a
+            # ``*iterables`` parameter, a list the caller filled) iterates the container, not a user iterable
+            for p in sorted(iter_params):
+                b = bindings(ctx, u, p)
+                if b and all(bv and all(x[0] in ("elems", "fresh", "kwargs") for x in bv) for bv in b):
+                    iter_params.discard(p)
         if not iter_params:
             continue
         ctx.count("iterable_params", len(iter_params))
